@@ -684,6 +684,8 @@ class Runner:
             y = out[1]
             if how == 'clip_inplace' and y is not x:
                 viol.append(('C08', 'inplace_returns_self', 'clip'))
+            if y._s == '' and any(p_.add or p_.rem for p_ in y._fmts.values()):
+                viol.append(('C04', 'slice_closed', 'an empty slice carries markers %r: text added to it in place would be styled' % (O.table(y),)))
             viol += self.oracle_slice(pre, y, a, b)
             viol += self.health(y, 'slice')
             if keep and y is not x:
@@ -743,6 +745,20 @@ class Runner:
             ys = out[1]
             if len(ys) != len(pre.text) or any(y._s != pre.text[i] or O.texts(O.acts(y)[0]) != O.texts(pre.acts[i]) for i, y in enumerate(ys)):
                 viol.append(('C04', 'iter_eq', ''))
+            # an iterator taken up again goes on where it stopped (for both classes), and ends
+            for obj, nm in ((x, 'AnsiString'), (self.S(x), 'AnsiStr')):
+                def resumed():
+                    it = iter(obj)
+                    head = [next(it).base_str for _ in range(min(2, len(pre.text)))]
+                    tail = []
+                    for c in it:
+                        tail.append(c.base_str)
+                        if len(tail) > len(pre.text) + 2:
+                            break
+                    return ''.join(head + tail)
+                r2 = self.call(resumed)
+                if r2[0] != 'ok' or r2[1] != pre.text:
+                    viol.append(('C04', 'iter_eq', 'iterating an %s in two goes yields %r for %r' % (nm, r2[1], pre.text)))
         self.emit('iter', inp, self.outcome_line(out, P.ok_astrs), 'iter %r' % x._s, viol)
 
     # ----------------------------------------------------------------- concatenation
